@@ -5,5 +5,6 @@ CONSTANTS
  FixedOrder = TRUE
 INVARIANT Mark
 INVARIANT Prog
+INVARIANT SeenIsLog
 POSTCONDITION Accepted
 CHECK_DEADLOCK FALSE
